@@ -63,6 +63,8 @@ DELIVERABLES (write them, then stop):
 Leave the worktree with your change applied (uncommitted). Remove your build directories and harness binaries before finishing to save disk space. Keep your final answer to a few lines.
 """
 
+MODERATE = BENIGN.replace("Touch at least four different places of the anchored code and be bold about the *shape* of the code, but", "Keep it to what a maintainer would do in one sitting - three to five places, each a recognisable clean-up of the existing code rather than a rewrite -, and remember that")
+
 for spec in sys.argv[3:]:
     pid, _, mech = spec.partition(":")
     name = pid if not mech else pid
@@ -76,7 +78,7 @@ for spec in sys.argv[3:]:
             "; or ".join("%s (%s)" % (m["name"], m["where"]) for m in ms)
     txt = HEAD.format(what="seeded defect" if kind == "seed" else "behaviour-preserving refactoring", wt=wt, id=pid, title=p["title"],
                       statement=p["statement"], quant=p["quantifier"]["text"], why=p["why_tests_cant"], anchors=anchors)
-    txt += (SEED if kind == "seed" else BENIGN).format(wt=wt, id=pid, focus=focus)
+    txt += (SEED if kind == "seed" else (MODERATE if kind == "moderate" else BENIGN)).format(wt=wt, id=pid, focus=focus)
     open(wt + ".prompt.txt", "w").write(txt)
     if not os.path.isdir(wt):
         subprocess.check_call(["git", "-C", "/repo", "worktree", "add", "-q", "--detach", wt, "HEAD"])
